@@ -2989,7 +2989,9 @@ class sptensor:
         empty sparse tensor of shape (2, 2) with order F
         """
         if isinstance(other, (float, int, np.number)):
-            return ttb.sptensor(self.subs, self.vals * other, self.shape)
+            vals = self.vals * other
+            nz = np.flatnonzero(vals)
+            return ttb.sptensor(self.subs[nz], vals[nz], self.shape)
 
         if (
             isinstance(other, (ttb.sptensor, ttb.tensor, ttb.ktensor))
@@ -2998,18 +3000,24 @@ class sptensor:
             assert False, "Sptensor multiply requires two tensors of the same shape."
 
         if isinstance(other, ttb.sptensor):
-            idxSelf = tt_intersect_rows(self.subs, other.subs)
-            idxOther = tt_intersect_rows(other.subs, self.subs)
+            if self.nnz == 0 or other.nnz == 0:
+                return ttb.sptensor(shape=self.shape)
+            # position in self, and matching position in other, of the common subscripts
+            valid, loc = tt_ismember_rows(self.subs, other.subs)
             return ttb.sptensor(
-                self.subs[idxSelf],
-                self.vals[idxSelf] * other.vals[idxOther],
+                self.subs[valid],
+                self.vals[valid] * other.vals[loc[valid]],
                 self.shape,
             )
         if isinstance(other, ttb.tensor):
-            csubs = self.subs
-            cvals = self.vals * other[csubs][:, None]
-            return ttb.sptensor(csubs, cvals, self.shape)
+            if self.nnz == 0:
+                return self.copy()
+            cvals = self.vals * np.atleast_1d(other[self.subs])[:, None]
+            nz = np.flatnonzero(cvals)
+            return ttb.sptensor(self.subs[nz], cvals[nz], self.shape)
         if isinstance(other, ttb.ktensor):
+            if self.nnz == 0:
+                return self.copy()
             csubs = self.subs
             cvals = np.zeros(self.vals.shape)
             R = other.weights.size
@@ -3022,7 +3030,8 @@ class sptensor:
                     v = other.factor_matrices[n][:, r][:, None]
                     tvals = tvals * v[csubs[:, n]]
                 cvals += tvals
-            return ttb.sptensor(csubs, cvals, self.shape)
+            nz = np.flatnonzero(cvals)
+            return ttb.sptensor(csubs[nz], cvals[nz], self.shape)
         assert False, "Sptensor cannot be multiplied by that type of object"
 
     def __rmul__(self, other):
